@@ -26,27 +26,27 @@ var versions = []primitive.ProtocolVersion{primitive.ProtocolVersion2, primitive
 	primitive.ProtocolVersion5, primitive.ProtocolVersionDse1, primitive.ProtocolVersionDse2}
 
 type caseRec struct {
-	Kind      string `json:"kind"`
-	Id        string `json:"id"`
-	Ver       int    `json:"ver"`
-	TypeCql   string `json:"type_cql"`
-	TypeCoq   string `json:"type_coq"`
-	Depth     int    `json:"depth"`
-	Rep       string `json:"rep"`
-	ValCoq    string `json:"val_coq"`
-	NullInColl bool  `json:"null_in_coll"` // a NULL sits at a collection element / map key / map value position (not expressible in v2)
-	Unordered bool   `json:"unordered"`  // encoding iterated a Go map with >= 2 entries: byte order unspecified
-	EncClass  string `json:"enc_class"`  // ok | null | err | panic
-	EncHex    string `json:"enc_hex"`
-	DecClass  string `json:"dec_class"`  // decode of the encoded bytes into *interface{}
-	DecCoq    string `json:"dec_coq"`
-	DecNull   bool   `json:"dec_null"`
-	RtEqual   bool   `json:"rt_equal"`   // decoded (untyped destination) value equals the source value
-	SameClass string `json:"same_class"` // decode into the same Go representation
-	SameEqual bool   `json:"same_equal"`
-	SameCoq   string `json:"same_coq"`
-	SameNull  bool   `json:"same_null"`
-	Err       string `json:"err,omitempty"`
+	Kind       string `json:"kind"`
+	Id         string `json:"id"`
+	Ver        int    `json:"ver"`
+	TypeCql    string `json:"type_cql"`
+	TypeCoq    string `json:"type_coq"`
+	Depth      int    `json:"depth"`
+	Rep        string `json:"rep"`
+	ValCoq     string `json:"val_coq"`
+	NullInColl bool   `json:"null_in_coll"` // a NULL sits at a collection element / map key / map value position (not expressible in v2)
+	Unordered  bool   `json:"unordered"`    // encoding iterated a Go map with >= 2 entries: byte order unspecified
+	EncClass   string `json:"enc_class"`    // ok | null | err | panic
+	EncHex     string `json:"enc_hex"`
+	DecClass   string `json:"dec_class"` // decode of the encoded bytes into *interface{}
+	DecCoq     string `json:"dec_coq"`
+	DecNull    bool   `json:"dec_null"`
+	RtEqual    bool   `json:"rt_equal"`   // decoded (untyped destination) value equals the source value
+	SameClass  string `json:"same_class"` // decode into the same Go representation
+	SameEqual  bool   `json:"same_equal"`
+	SameCoq    string `json:"same_coq"`
+	SameNull   bool   `json:"same_null"`
+	Err        string `json:"err,omitempty"`
 	// the same case in the universe of coq/model/CqlGoVal.v (empty when the representation is outside it)
 	SrcGty  string `json:"src_gty,omitempty"`
 	SrcG    string `json:"src_g,omitempty"`
